@@ -159,6 +159,39 @@ CHECKS = {
         note="Data-race freedom in the C memory model rests on ThreadSanitizer over the schedules actually executed (DESIGN 9); the "
              "specification decides the locking protocol and the counts. OpenSSL / c-ares internals are trusted (suppressions limited "
              "to their frames). First-use races need the cold-start runs and are caught with high probability, not certainty."),
+    "C08": dict(
+        cat="fault_enumeration",
+        text="spec/Lifecycle.tla is an ownership monitor Step(s, e) over one logged event (descriptors owned by the library with kind and "
+             "owning socket, the application's foreign descriptors, created files, the process-wide eventfd pool with first-fit and a "
+             "bound per eventfd, live sockets, the API call in progress, owner / forked-child mode) and a design model that walks the "
+             "server / connect / accept ladders of ux, uxf, tcp, btcp, utls with any step failing, finish, close, fork + xcm_cleanup; TLC "
+             "checks NoStrayClose, NoForeignCtl, FailedCallLeaksNothing, ErrnoNotAbort, CleanupIsLocal, PoolRefcount, AllClosedClean on it "
+             "and must refute four named deviations. Fault enumeration on the real library (harness/life_exec, own shim): for each of "
+             "38 (quick) / 83 (thorough) scenarios over all transports (control interface on/off, credentials by value, blocking, decoy "
+             "descriptors, control client attached, fork points, connections held in progress, 102 pool users) the resource-creating calls "
+             "are counted and the scenario is re-run failing exactly the i-th such call with each errno of its class (pairs sampled / "
+             "exhaustive on marked scenarios); every execution's system-call log plus the observed /proc/self/fd table, leftover files, "
+             "LeakSanitizer result and abort events is validated by TLC against spec/LifecycleTrace.tla (same monitor).",
+        ref="5/C08", tech="TLA+ ownership specification (TLC) + single/pair fault enumeration on the real library, every trace validated by the specification",
+        note="Level fault_enumeration: exhaustive over single failing resource-creating calls per scenario and errno class (socket, accept4, "
+             "epoll_create1, eventfd, timerfd_create, connect, bind, listen, fopen, setsockopt, SO_ERROR); pairs sampled in quick. Heap "
+             "equality rests on LeakSanitizer after a warm-up run; failures inside libssl/libcrypto/libcares and malloc failure are outside. "
+             "One finding recorded (eventfd failure aborts the process)."),
+    "C14": dict(
+        text="spec/Ctl.tla models the control server of a socket (client table of 2, listen backlog, per-slot reused reply buffer, request "
+             "and reply queues, one ctl_process round incl. restart after a removal, ctl_destroy) composed with an abstract data path, with "
+             "client actions connect / send(get, tls.key, get-all, malformed, odd) / receive / drop and the owner's polling; TLC checks "
+             "BoundedSessions, FifoReplies, FirstRequestAny, KeyNeverDisclosed, WellBehavedStay, Passive(Step), FilesGone, SettledServes "
+             "and Answered under fairness, and prints one behaviour per transition. harness/ctl_exec binds each behaviour to one of 104 "
+             "real socket scenarios (all transports, roles and states; attribute profiles up to 89 attributes, values of 511..5800 bytes) "
+             "with a raw SEQPACKET client and the libxcmctl client while the owner keeps exchanging content-checked messages; "
+             "spec/CtlTrace.tla drives the same operators with the recorded events and judges replies against in-process xcm_attr_get / "
+             "xcm_attr_get_all samples, key disclosure (base64 and DER windows over every reply byte), control files and data-path "
+             "passivity; crashes (ASan/UBSan, assertions) are trace events.",
+        ref="5/C14", tech="TLA+ model checking (TLC) + model-generated session behaviours replayed on real sockets and validated by a trace specification",
+        note="Trusted base: TLC + CommunityModules. What the server does with malformed messages is not constrained beyond safety; "
+             "volatile attributes (tcp.rtt etc.) are compared by type and length only; counters exactly at quiescent samples. Memory safety "
+             "rests on ASan/UBSan over the replayed behaviours. A mismatch class is reported only if a solo re-run reproduces it."),
 }
 
 NOT_APPLICABLE = {}
